@@ -24,15 +24,16 @@ Fixpoint eqb_str (a b : str) : bool :=
   end.
 
 Definition code (c : ascii) : nat := nat_of_ascii c.
+Definition ncode (c : ascii) : N := N_of_ascii c.
+Definition between (lo hi : N) (c : ascii) : bool := (N.leb lo (ncode c)) && (N.leb (ncode c) hi).
 
-Definition is_digit (c : ascii) : bool := (48 <=? code c) && (code c <=? 57).
-Definition is_upper (c : ascii) : bool := (65 <=? code c) && (code c <=? 90).
-Definition is_lower (c : ascii) : bool := (97 <=? code c) && (code c <=? 122).
+Definition is_digit (c : ascii) : bool := between 48 57 c.
+Definition is_upper (c : ascii) : bool := between 65 90 c.
+Definition is_lower (c : ascii) : bool := between 97 122 c.
 Definition is_alpha (c : ascii) : bool := is_upper c || is_lower c.
 Definition is_alnum (c : ascii) : bool := is_alpha c || is_digit c.
 (* Python str.isspace for ASCII: \t \n \v \f \r, FS GS RS US, space *)
-Definition is_space (c : ascii) : bool :=
-  let n := code c in ((9 <=? n) && (n <=? 13)) || ((28 <=? n) && (n <=? 32)).
+Definition is_space (c : ascii) : bool := between 9 13 c || between 28 32 c.
 
 Definition all_digits (s : str) : bool := forallb is_digit s.
 (* str.isdigit(): non-empty and all digits *)
@@ -172,8 +173,8 @@ Fixpoint str_ltb (a b : str) : bool :=
   | [], _ :: _ => true
   | _ :: _, [] => false
   | x :: a', y :: b' =>
-      if code x <? code y then true
-      else if code y <? code x then false
+      if N.ltb (ncode x) (ncode y) then true
+      else if N.ltb (ncode y) (ncode x) then false
       else str_ltb a' b'
   end.
 Definition str_leb (a b : str) : bool := negb (str_ltb b a).
